@@ -3,11 +3,14 @@
 Correspondence (stage-wise, chained inside the model): for every branch of generated networks the model C02.Model / C02.Run
 predicts (a) the ppc branch row BR_R BR_X BR_G BR_B *_ASYM TAP SHIFT BR_STATUS RATE_A from the element parameters,
 (b) the four Yf/Yt stamps of makeYbus, (c) the branch flows PF QF PT QT of pfsoln from the solved voltages, (d) i_ka of
-_get_branch_flows and the loading of res_line / res_trafo / res_trafo3w; sqrt/trig oracles come from python math and the
-model returns the residual of each oracle's defining equation (hypothesis validation).
+_get_branch_flows and the loading of res_line / res_trafo / res_trafo3w, (e) for every three-winding transformer the result
+columns p/q_hv, p/q_mv, p/q_lv, pl/ql from its three rows (C02.Model3w.t3_results); sqrt/trig oracles come from python math and
+the model returns the residual of each oracle's defining equation (hypothesis validation: incl. the five square roots of the
+3W vk conversion, each block's x oracle, and Kirchhoff's current law at the star point for C02_t3_losses_star).
 Oracle (independent of the model): a float reference implementation of the documented circuits in physical units
 (vf/c02_gen.py ref_*) evaluated on the reported bus voltages must reproduce every column of res_line, res_trafo,
-res_trafo3w, res_impedance; DC power flow: vm = 1, q = 0, pl = 0, p_from = -p_to = (theta_f - theta_t - shift)/(x tap)."""
+res_trafo3w, res_impedance; the documented pairwise short-circuit data of a 3W transformer (vkr resp. vk relative to the smaller
+rating of the pair) must be reproduced by the r/x of the ppc rows of its star branches; DC power flow: vm = 1, q = 0, pl = 0, p_from = -p_to = (theta_f - theta_t - shift)/(x tap)."""
 import json, math, os, glob
 import numpy as np
 import pandapower as pp
@@ -175,6 +178,42 @@ def _one(ctx, d, terms, pend, sample=False):
         terms.append("OL [%s; %s]" % (o.term, extra))
         pend.append(("ac", d, o, net_tables(net, o)))
         ctx.count("branch_" + o.kind)
+    # three-winding transformer as a whole: rows -> stamps -> flows -> _get_trafo3w_results (model t3_results, theorems
+    # C02_t3_results_star / C02_t3_losses_star); hypothesis of the loss theorem: Kirchhoff's current law at the star point
+    for i, w in enumerate(d["t3"]):
+        blks = sorted([o for o in obs if o.kind == "trafo3w" and o.idx == i], key=lambda o: o.blk)
+        if len(blks) != 3 or not all(o.active for o in blks):
+            continue
+        oh, om, ol = blks
+        r = net.res_trafo3w.iloc[i]
+        terms.append("OL [run_t3_res %s %s %s %s %s %s %s %s %s %s %s]" % (
+            oh.rowterm, om.rowterm, ol.rowterm, g.cplx(oh.e), g.cplx(om.e), g.cplx(ol.e), g.cplx(oh.vf), g.cplx(oh.vt), g.cplx(om.vt),
+            g.cplx(ol.vt), g.q(float(net.sn_mva))))
+        pend.append(("t3res", d, i, [float(x) for x in (r.p_hv_mw, r.q_hv_mvar, r.p_mv_mw, r.q_mv_mvar, r.p_lv_mw, r.q_lv_mvar, r.pl_mw, r.ql_mvar)]))
+        ctx.count("t3_results_loss_%s" % w["loss"])
+        # documented pairwise short-circuit data on the impl's own ppc rows (independent of the model; conclusion of
+        # C02_t3_star_pairwise): r/x of two star branches at nominal ratio add up to vkr resp. |.| = vk of the pair, relative
+        # to the smaller rating.  Rows of a T-model block with a magnetising branch are pi-converted: skip those pairs
+        lossblk = {"hv": 0, "mv": 1, "lv": 2}.get(w["loss"], 3)
+        raw = lambda b: d["opt"]["trafo_model"] == "pi" or b != lossblk or (w["pfe"] == 0 and w["i0"] == 0)
+        sn_, s_ = float(net.sn_mva), w["sn"]
+        for (a, b, k) in ((0, 1, 0), (1, 2, 1), (0, 2, 2)):
+            if not (raw(a) and raw(b)):
+                continue
+            smin = min(s_[a], s_[b])
+            R = blks[a].row[0] / blks[a].c_off + blks[b].row[0] / blks[b].c_off
+            X = blks[a].row[1] / blks[a].c_off + blks[b].row[1] / blks[b].c_off
+            Rdoc, Zdoc = w["vkr"][k] / 100 * sn_ / smin, w["vk"][k] / 100 * sn_ / smin
+            ctx.count("t3_pairwise_checked")
+            if not g.close(R, Rdoc, 1e-9) or X < 0 or not g.close(math.hypot(R, X), Zdoc, 1e-9):
+                ctx.violation("spec", "trafo3w[%d]: star branches %d+%d give r=%.10g |z|=%.10g, documented pairwise short-circuit data "
+                              "vkr/100*sn/min(sn) = %.10g, vk/100*sn/min(sn) = %.10g" % (i, a, b, R, math.hypot(R, X), Rdoc, Zdoc), d)
+        star_sum = oh.flows[1] + om.flows[0] + ol.flows[0]
+        if w["loss"] != "star":
+            if abs(star_sum) > 1e-6:
+                ctx.disagreement("trafo3w[%d]: flows at the star point add up to %r (hypothesis of C02_t3_losses_star: zero injection at the "
+                                 "auxiliary bus)" % (i, star_sum), d)
+            ctx.count("t3_star_kcl_checked")
     ctx.count("tmodel_" + d["opt"]["trafo_model"])
     for t in d["t2"]:
         ctx.count("tap_%s_%s" % (t["tap"]["type"], t["tap"]["side"]))
@@ -223,6 +262,18 @@ def _compare(ctx, pend, model):
             m = g.fl(mod[0])
             if isinstance(m, cq.Err) or not g.close(impl, m, 1e-9, 1e-9):
                 ctx.disagreement("DC flow of ppc branch %d: impl=%s model=%s" % (k, impl, m), d)
+            continue
+        if item[0] == "t3res":
+            _, d, i, impl = item
+            m = mod[0]
+            if isinstance(m, cq.Err):
+                ctx.disagreement("trafo3w[%d] result columns: model raises %s, impl reports %s" % (i, m, impl), d)
+                continue
+            m = [x for pair in g.fl(m) for x in pair]
+            if not g.close(impl, m, 1e-8, 1e-9):
+                names = ["p_hv", "q_hv", "p_mv", "q_mv", "p_lv", "q_lv", "pl", "ql"]
+                diff = ["%s impl=%.10g model=%.10g" % (n, a, b_) for n, a, b_ in zip(names, impl, m) if not g.close(a, b_, 1e-8, 1e-9)]
+                ctx.disagreement("trafo3w[%d] result columns (t3_results): %s" % (i, "; ".join(diff)), d)
             continue
         _, d, o, tab = item
         m, extra = mod[0], mod[1]
@@ -277,12 +328,12 @@ def run(ctx):
         ctx.count("corpus")
     for k in range(ctx.n(70, 1500)):
         _one(ctx, g.gen_desc(rng, passive=False), terms, pend, sample=(k < 2))
-    model = ctx.coq_eval("c02", "Base.QN Base.QC C31.Model C02.Model C02.Run", terms, shard=25, timeout=900)
+    model = ctx.coq_eval("c02", "Base.QN Base.QC C31.Model C02.Model C02.Run C02.Model3w C02.Run3w", terms, shard=25, timeout=900)
     _compare(ctx, pend, model)
 
 
 def replay(ctx, rec):
     terms, pend = [], []
     _one(ctx, rec["case"], terms, pend, sample=True)
-    model = ctx.coq_eval("c02", "Base.QN Base.QC C31.Model C02.Model C02.Run", terms, shard=25, timeout=900)
+    model = ctx.coq_eval("c02", "Base.QN Base.QC C31.Model C02.Model C02.Run C02.Model3w C02.Run3w", terms, shard=25, timeout=900)
     _compare(ctx, pend, model)
